@@ -49,6 +49,10 @@ def specsOf (l : List (Nat × LeafSpec)) (i : Nat) : LeafSpec :=
   | some s => s
   | none => { kind := .inline (.value 0), affine := false }
 
+/-- a scripted event; `cur o` = "complete whatever leaf is pending" (`c?:O`) is resolved against the state -/
+inductive SEv
+  | ev (e : Ev) | cur (o : Outcome)
+
 def parseEv (s : String) : Option Ev :=
   if s = "start" then some .start
   else if s = "stop" then some .stop
@@ -59,6 +63,9 @@ def parseEv (s : String) : Option Ev :=
       | [i, o] => do let i ← i.toNat?; let o ← parseOutcome o; pure (.complete i o)
       | _ => none
     | _ => none
+
+def parseSEv (s : String) : Option SEv :=
+  if s.startsWith "c?:" then (parseOutcome (s.drop 3).toString).map SEv.cur else (parseEv s).map SEv.ev
 
 def renderOutcome : Outcome → String
   | .value v => s!"v{v}"
@@ -87,11 +94,22 @@ def stepEv (specs : Nat → LeafSpec) (s : St) (ev : Ev) : St × String :=
     let s' := deliver specs ev s
     (s', renderOuts (s'.outs.drop s.outs.length))
 
-def runScript (specs : Nat → LeafSpec) : St → List Ev → List String → St × List String
+def resolve (s : St) : SEv → Option Ev
+  | .ev e => some e
+  | .cur o =>
+    match s.ctl with
+    | .waitLeaf i => some (.complete i o)
+    | .waitCleanup i _ => some (.complete i (.value 0))
+    | _ => none
+
+def runScript (specs : Nat → LeafSpec) : St → List SEv → List String → St × List String
   | s, [], acc => (s, acc.reverse)
   | s, ev :: evs, acc =>
-    let (s', r) := stepEv specs s ev
-    runScript specs s' evs (r :: acc)
+    match resolve s ev with
+    | none => runScript specs s evs ("!!bad-op" :: acc)
+    | some e =>
+      let (s', r) := stepEv specs s e
+      runScript specs s' evs (r :: acc)
 
 /-- what the harness does after the scripted events: queued scheduler items first, then the pending leaf
     (done for a body leaf, v0 for a cleanup leaf) -/
@@ -119,7 +137,7 @@ def runCase (line : String) : String :=
       match toProg sx with
       | some prog =>
         let specs := specsOf ((words sp).filterMap parseSpec)
-        match (words evs).mapM parseEv with
+        match (words evs).mapM parseSEv with
         | some evl =>
           let s0 := St.init prog (mode.trimAscii.toString != "man")
           let (s1, r1) := runScript specs s0 evl []
